@@ -206,7 +206,7 @@ func (e *SpecEnv) lookupLocal(name string) (SVal, bool) {
 			}
 		}
 	}
-	if vs, ok := f.debugAll[name]; ok {
+	if vs := f.staticDebug(name); len(vs) > 0 {
 		for k := len(vs) - 1; k >= 0; k-- {
 			v := vs[k]
 			if e.dominatesHere(v) {
@@ -453,6 +453,14 @@ func (e *SpecEnv) ident(name string) SVal {
 		return goVal(name, tBool)
 	case "nil":
 		return SVal{IsNil: true, T: "0"}
+	}
+	if e.loopHeader != nil {
+		// in a loop invariant a re-assigned parameter means its current value, as any other local does
+		if pv, isParam := e.vars[name]; isParam && pv.typ != nil && pv.sv.T != "" {
+			if v, ok := e.lookupLocal(name); ok {
+				return v
+			}
+		}
 	}
 	if v, ok := e.vars[name]; ok {
 		if v.sv.Fn != nil && v.sv.T == "" {
@@ -754,7 +762,7 @@ func (e *SpecEnv) bind(name string, v specVar) *SpecEnv {
 func (e *SpecEnv) call(x *Expr) SVal {
 	c := e.c
 	fn := x.Args[0]
-	if fn.Op != "id" || (fn.Name != "old" && fn.Name != "pre" && fn.Name != "forall" && fn.Name != "exists") {
+	if fn.Op != "id" || (fn.Name != "old" && fn.Name != "pre" && fn.Name != "forall" && fn.Name != "forallq" && fn.Name != "exists") {
 		_, isDef := e.x.S.Defs[fn.Name]
 		if !(fn.Op == "id" && isDef && e.x.S.Defs[fn.Name].Ret == "Bool") {
 			e = e.mix()
@@ -816,10 +824,14 @@ func (e *SpecEnv) call(x *Expr) SVal {
 			}
 			has, _, _ := c.mapHeaps(mt)
 			return goVal(and("(not (= "+m.T+" 0))", sel(e.st.get(has), m.T, k.T)), tBool)
-		case "forall", "exists":
+		case "forall", "exists", "forallq":
 			// forall(i, body)  |  forall(i, "Sort" or type, body)
 			if len(args) < 2 || args[0].Op != "id" {
 				e.fail("%s(i, body)", fn.Name)
+			}
+			noExpand := fn.Name == "forallq" // forallq: a forall that is never expanded into a finite conjunction
+			if noExpand {
+				fn = &Expr{Op: "id", Name: "forall"}
 			}
 			name := args[0].Name
 			srt := "Int"
@@ -856,7 +868,7 @@ func (e *SpecEnv) call(x *Expr) SVal {
 					return goVal(ne.evalBool(body), tBool)
 				}
 			}
-			if fn.Name == "forall" && srt == "Int" && body.Op == "imp" {
+			if fn.Name == "forall" && !noExpand && srt == "Int" && body.Op == "imp" {
 				// forall(i, c1 <= i && i < c2 ==> B) with a small constant range is a finite conjunction
 				if lo, hi, ok := e.constRange(body.Args[0], name); ok && hi-lo <= 128 {
 					var parts []string
@@ -895,7 +907,7 @@ func (e *SpecEnv) call(x *Expr) SVal {
 					b = and(rng, b)
 				}
 			}
-			if srt == "Int" && fn.Name == "forall" && os.Getenv("GOVC_NOSHIFT") == "" {
+			if srt == "Int" && os.Getenv("GOVC_NOSHIFT") == "" {
 				jn := qsym(c.freshName("j_" + name))
 				if nb, pats, ok := shiftQuant(b, qsym(bn), jn); ok {
 					// one multi-pattern per read keeps every read a sufficient trigger
@@ -1215,6 +1227,28 @@ func (e *SpecEnv) assignTarget(part string) ([]assignTarget, error) {
 		star = true
 		part = strings.TrimPrefix(part, "*")
 	}
+	if !star && e.frame != nil && isIdent(part) {
+		// a local variable that lives in memory (captured by a closure or address-taken): its cell
+		if vs := e.frame.debugAll["&"+part]; len(vs) > 0 {
+			v := vs[len(vs)-1]
+			sv, ok := e.frame.env[v]
+			if e.override != nil {
+				if o, ok2 := e.override[v]; ok2 {
+					sv, ok = o, true
+				}
+			}
+			if ok && sv.T != "" {
+				t := v.Type().Underlying().(*types.Pointer).Elem()
+				if st, isS := t.Underlying().(*types.Struct); isS {
+					for i := 0; i < st.NumFields(); i++ {
+						out = append(out, assignTarget{heap: c.fieldHeap(t, i), ref: sv.T})
+					}
+					return out, nil
+				}
+				return []assignTarget{{heap: c.boxHeap(t), ref: sv.T}}, nil
+			}
+		}
+	}
 	ex, err := parseExpr(part)
 	if err != nil {
 		return nil, err
@@ -1463,4 +1497,35 @@ func (e *SpecEnv) constRange(g *Expr, name string) (lo, hi int64, ok bool) {
 		hi++
 	}
 	return lo, hi, true
+}
+
+// staticDebug lists, in block order, the values that go/ssa's DebugRef instructions bind to source name
+// `name` anywhere in the function (so that a re-assigned parameter or variable resolves to its latest value that
+// dominates the point of use, even when the uses that mention it come later in the code).
+func (f *Frame) staticDebug(name string) []ssa.Value {
+	if f.debugStatic == nil {
+		f.debugStatic = map[string][]ssa.Value{}
+		for _, b := range f.fn.Blocks {
+			for _, in := range b.Instrs {
+				if d, ok := in.(*ssa.DebugRef); ok && !d.IsAddr {
+					if obj := d.Object(); obj != nil {
+						f.debugStatic[obj.Name()] = append(f.debugStatic[obj.Name()], d.X)
+					}
+				}
+			}
+		}
+	}
+	return f.debugStatic[name]
+}
+
+func isIdent(s string) bool {
+	if s == "" {
+		return false
+	}
+	for i, r := range s {
+		if !(r == '_' || r >= 'a' && r <= 'z' || r >= 'A' && r <= 'Z' || (i > 0 && r >= '0' && r <= '9')) {
+			return false
+		}
+	}
+	return true
 }
